@@ -97,21 +97,34 @@ func (c *Collection) StartDCPFeed(
 	}
 	feed.events.init()
 
-	if args.Backfill != sgbucket.FeedNoBackfill {
-		startCas := args.Backfill
-		if args.Backfill == sgbucket.FeedResume {
-			if args.CheckpointPrefix == "" {
-				return fmt.Errorf("feed's Backfill is FeedResume but no CheckpointPrefix given")
-			}
-			if err := feed.readCheckpoint(); err != nil {
-				return fmt.Errorf("couldn't read DCP feed checkpoint: %w", err)
-			}
-			startCas = feed.lastCas + 1
+	startCas := args.Backfill
+	if args.Backfill == sgbucket.FeedResume {
+		if args.CheckpointPrefix == "" {
+			return fmt.Errorf("feed's Backfill is FeedResume but no CheckpointPrefix given")
 		}
+		if err := feed.readCheckpoint(); err != nil {
+			return fmt.Errorf("couldn't read DCP feed checkpoint: %w", err)
+		}
+		startCas = feed.lastCas + 1
+	}
 
+	var db queryable
+	if args.Dump {
+		db = c.db()
+	} else {
+		// A feed that goes on to deliver live events reads its backfill and registers for notifications in one
+		// critical section. Writers commit while they hold the bucket's mutex and post their event afterwards, so a
+		// write is either committed before this section (the backfill reads it) or posts its event after the feed is
+		// registered. With the mutex released in between, such a write was delivered by neither.
+		c.bucket.mutex.Lock()
+		defer c.bucket.mutex.Unlock()
+		db = c.bucket._db()
+	}
+
+	if args.Backfill != sgbucket.FeedNoBackfill {
 		debug("%s starting backfill from CAS 0x%x", feed, startCas)
 		feed.events.push(&sgbucket.FeedEvent{Opcode: sgbucket.FeedOpBeginBackfill})
-		err := c.enqueueBackfillEvents(startCas, args.KeysOnly, &feed.events)
+		err := c.enqueueBackfillEvents(db, startCas, args.KeysOnly, &feed.events)
 		if err != nil {
 			return err
 		}
@@ -123,21 +136,19 @@ func (c *Collection) StartDCPFeed(
 		feed.events.push(nil) // push an eof
 	} else {
 		// Register the feed with the collection for future notifications:
-		c.bucket.mutex.Lock()
 		c.bucket.collectionFeeds[c.DataStoreNameImpl] = append(c.bucket.collectionFeeds[c.DataStoreNameImpl], feed)
-		c.bucket.mutex.Unlock()
 	}
 	go feed.run()
 	return nil
 }
 
-func (c *Collection) enqueueBackfillEvents(startCas uint64, keysOnly bool, q *eventQueue) error {
+func (c *Collection) enqueueBackfillEvents(db queryable, startCas uint64, keysOnly bool, q *eventQueue) error {
 	sql := fmt.Sprintf(`SELECT key, %s, %s, isJSON, cas, tombstone, revSeqNo, exp FROM documents
 						WHERE collection=?1 AND cas >= ?2 
 						ORDER BY cas`,
 		ifelse(keysOnly, `null`, `value`),
 		ifelse(keysOnly, `null`, `xattrs`))
-	rows, err := c.db().Query(sql, c.id, startCas)
+	rows, err := db.Query(sql, c.id, startCas)
 	if err != nil {
 		return err
 	}
